@@ -719,7 +719,7 @@ impl RevocationOracle {
 						crate::runner::witness("c05-sign-holder-htlc");
 					}
 				},
-				Obs::Broadcast { node, b } => {
+				Obs::Broadcast { node, b, .. } => {
 					for tx in b.txs.iter() {
 						let txid = tx.compute_txid();
 						for ci in 0..self.chans.len() {
@@ -1035,7 +1035,7 @@ impl PersistOrderOracle {
 						_ => {},
 					}
 				},
-				Obs::Broadcast { node, b } => {
+				Obs::Broadcast { node, b, .. } => {
 					if b.kinds.iter().any(|k| k == "Funding") {
 						for ci in 0..self.chans.len() {
 							if self.side(ci, *node).is_some() && self.initial_done.get(&(*node, ci)) == Some(&false) {
@@ -1492,5 +1492,79 @@ impl Oracle for SenderOracle {
 			crate::runner::witness("c03-sender-debit-exact");
 		}
 		Ok(label)
+	}
+}
+
+// -------------------------------------------------------------------------------------------------
+/// Every transaction a node broadcasts is consensus-valid and final for the chain the simulator
+/// holds when it is broadcast (a transaction that merely lost a race is not a violation), and a
+/// replacement for the same outpoints pays a strictly higher absolute fee and feerate (C06/C07).
+pub struct TxValidityOracle {
+	/// previous claim per (node, sorted outpoint set): (fee, weight)
+	prev: BTreeMap<(usize, Vec<bitcoin::OutPoint>), (u64, u64, bitcoin::Txid)>,
+	pub check_rbf: bool,
+}
+impl TxValidityOracle {
+	pub fn new() -> Self {
+		TxValidityOracle { prev: BTreeMap::new(), check_rbf: true }
+	}
+}
+impl Oracle for TxValidityOracle {
+	fn name(&self) -> &'static str {
+		"broadcast-validity"
+	}
+	fn observe(&mut self, _w: &World, obs: &[Obs]) -> Result<(), Failure> {
+		use crate::chain::Reject;
+		for o in obs {
+			if let Obs::Broadcast { node, b, admit } = o {
+				for (i, r) in admit.iter().enumerate() {
+					let tx = &b.txs[i];
+					let kind = b.kinds.get(i).cloned().unwrap_or_default();
+					if kind == "Funding" {
+						continue; // harness-built funding transaction (no inputs)
+					}
+					match r {
+						Ok(fee) => {
+							crate::runner::witness("broadcast-admitted");
+							if self.check_rbf && kind != "Sweep" {
+								let mut ops: Vec<bitcoin::OutPoint> = tx.input.iter().map(|x| x.previous_output).collect();
+								ops.sort();
+								let w = tx.weight().to_wu();
+								let txid = tx.compute_txid();
+								if let Some((pf, pw, ptxid)) = self.prev.get(&(*node, ops.clone())) {
+									if *ptxid != txid {
+										// a replacement of the same claim: strictly higher fee and feerate
+										if *fee <= *pf || (*fee as u128) * (*pw as u128) <= (*pf as u128) * (w as u128) {
+											return Err(Failure::new(
+												"rbf-monotonic",
+												format!("node {} re-issued a claim of {:?} with fee {} (weight {}) after fee {} (weight {})", node, ops.len(), fee, w, pf, pw),
+											));
+										}
+										crate::runner::witness("rbf-bump-checked");
+									}
+								}
+								self.prev.insert((*node, ops), (*fee, w, txid));
+							}
+						},
+						Err(Reject::LostRace(..)) | Err(Reject::AlreadyConfirmed) => {
+							crate::runner::witness("broadcast-lost-race");
+						},
+						Err(e) => {
+							return Err(Failure::new(
+								"broadcast-validity",
+								format!(
+									"node {} broadcast a {} transaction {} that is not valid/final for the chain it was told about: {:?}",
+									node,
+									kind,
+									tx.compute_txid(),
+									e
+								),
+							));
+						},
+					}
+				}
+			}
+		}
+		Ok(())
 	}
 }
